@@ -386,11 +386,10 @@ theorem selSound_of_targetsOK (m : Machine) (h : TargetsOK m) : SelSound m := by
   obtain ⟨⟨d, hd, ht⟩, hq⟩ := selectTransitions_sound m cfg env ev sel hs c hc
   exact ⟨h c.src d c.t hd ht, hq⟩
 
-/-- **C01 for whole runs of the async model, from machine-level hypotheses only.** -/
-theorem legal_async_run' (m : Machine) (env : GEnv) (hwf : WF m.root) (hi : InitOK m.root)
-    (hk : m.root.kind ≠ .history) (ht : TargetsOK m) (evs : List Ev) :
-    RInv m (evs.foldl (fun s e => asyncSend m env e s) (asyncStart m env {})) :=
-  legal_async_run m env hwf hi hk (selSound_of_targetsOK m ht) evs
+/-- **C01 for whole runs of either engine model, from machine-level hypotheses only.** -/
+theorem legal_run' (fl : Flavor) (m : Machine) (u : UEnv) (hwf : WF m.root) (hi : InitOK m.root)
+    (hk : m.root.kind ≠ .history) (ht : TargetsOK m) (hstart : (start fl m u {}).err = none)
+    (evs : List Ev) : Legal m.root (evs.foldl (cmd fl m u) (start fl m u {})).cfg :=
+  legal_run fl m u hwf hi hk (selSound_of_targetsOK m ht) hstart evs
 
-#print axioms legal_async_run'
 end XSM
